@@ -1,6 +1,7 @@
 (** The abstract state on which the transfer-message handlers of
     tcpcl/session.py (class ContactHandler: recv_xfer_ack, recv_xfer_refuse,
-    recv_sess_term, with the Messenger base guards they call first) are
+    recv_sess_term, recv_xfer_data, with the Messenger base guards they call
+    first, _tx_teardown, _rx_setup and _rx_teardown) are
     translated by translate/targets/tcpclhandlers.py into Gen/TcpclHandlers.v,
     and the abstraction [habs] from the endpoint model's state.  Definitions
     only.
@@ -12,7 +13,10 @@
     [_tx_pend_ack] / [_tx_pend_start] is membership of its id.  A collection of
     items never contains a bare integer: the translator turns
     [discard]/[remove]/[in] applied to something that is not an item variable
-    into a no-op / [false]. *)
+    into a no-op / [false].  The transfer being received is (id, octets written
+    to its file so far); a received bundle is (id, length); the octet string of
+    a segment is represented by its length.  The decision types at the end are
+    the results of the control functions of Gen/TcpclControl.v. *)
 From Coq Require Import List NArith Bool.
 From DTN Require Import Lib.Bytes Model.TcpclMsg Model.TcpclSess.
 Import ListNotations.
